@@ -1423,7 +1423,14 @@ fn wall_clock_cases(ctx: &mut Ctx) {
     }
 }
 
+/// wall time of the blocks of a suite, summed over the shards into the evidence (`time_ms.<block>`)
+fn lap(ctx: &mut Ctx, t: &mut Instant, what: &str) {
+    ctx.add(&format!("time_ms.{}", what), t.elapsed().as_millis() as u64);
+    *t = Instant::now();
+}
+
 pub fn suite_text(ctx: &mut Ctx) {
+    let mut t_lap = Instant::now();
     // the big implementation-only cases take their shard turn one by one (inside), so that the shards share them
     many_distinct_tokens(ctx);
     if ctx.take() {
@@ -1435,6 +1442,7 @@ pub fn suite_text(ctx: &mut Ctx) {
         Tier::Quick => (3000, 20),
         Tier::Thorough => (40000, 300),
     };
+    lap(ctx, &mut t_lap, "big_cases");
     // exhaustive: texts of up to 2 pieces, every kind and algorithm
     let t2 = small_texts(&PIECES, 2);
     let nlt_all = ctx.tier == Tier::Thorough;
@@ -1477,6 +1485,7 @@ pub fn suite_text(ctx: &mut Ctx) {
             }
         }
     }
+    lap(ctx, &mut t_lap, "exhaustive_small");
     // random texts with a few edits, a quarter of them with broken UTF-8
     for i in 0..nrand as u64 {
         if !ctx.take() {
@@ -1497,6 +1506,7 @@ pub fn suite_text(ctx: &mut Ctx) {
         ctx.count("text.random_pairs");
         text_pair(ctx, &c, &old, &new, i);
     }
+    lap(ctx, &mut t_lap, "random_pairs");
     // a terminator change (CR / CRLF / LF / none) right behind a shared head, on both sides of the 100-token switch
     for (j, (o, n)) in terminator_change_pairs(&[0, 2, 99, 130]).into_iter().enumerate() {
         if !ctx.take() {
@@ -1506,6 +1516,7 @@ pub fn suite_text(ctx: &mut Ctx) {
         ctx.count("text.terminator_change_cases");
         text_pair(ctx, &c, &o, &n, j as u64);
     }
+    lap(ctx, &mut t_lap, "terminator_change");
     // a shared head of more than 100 tokens followed by short tails that repeat tokens of the head: what is unique
     // in a tail alone is not unique in the whole text (C14: the text diff is the diff of ALL the tokens)
     for alg in ALGS {
@@ -1569,6 +1580,7 @@ pub fn suite_text(ctx: &mut Ctx) {
             text_pair(ctx, &c, &concat(&old), &concat(&new), j);
         }
     }
+    lap(ctx, &mut t_lap, "long_shared_head");
     // both sides of the 100-token switch (C14)
     for kind in Kind::DIFF {
         for alg in ALGS {
